@@ -177,7 +177,9 @@ def run_sequences(acc: Acc, shard: Dict[str, Any]):
         got = unique_in_order(xs)
         case = {"sequence": [repr(x) for x in xs]}
         acc.case(bp.phash(case), len(want) < len(xs), sample=case)
-        if len(got) != len(want) or any(a is not b and a != b for a, b in zip(got, want)) or any(type(a) is not type(b) for a, b in zip(got, want)):
+        # "keeps the first occurrence": the kept element IS the first of its equals (same object: equal elements may still differ in
+        # orientation, type or identity)
+        if len(got) != len(want) or any(a is not b for a, b in zip(got, want)):
             acc.finding("unique-in-order/wrong", "unique_in_order does not keep exactly the first occurrence of every element in order", case,
                         {"got": [repr(x) for x in got], "expected": [repr(x) for x in want]})
         if xs and list(unique_in_order(iter(xs))) != got:
